@@ -23,8 +23,8 @@ RULE = ('cases = inference-model spec (bounded/unbounded/hierarchical/exponentia
         'non-trivial = at least 2 populations returned')
 ASSUMPTIONS = ['thresholds are chosen from a pilot run so that acceptance is well above 1% (the sampler retries for ever by design)']
 CONFIG = {
-    'quick': {'shards': 16, 'cases': 3, 'timeout': 900, 'floor': 15},
-    'thorough': {'shards': 32, 'cases': 50, 'timeout': 3400, 'floor': 500},
+    'quick': {'shards': 16, 'cases': 4, 'timeout': 900, 'floor': 20},
+    'thorough': {'shards': 32, 'cases': 250, 'timeout': 5400, 'floor': 2500},
 }
 REQUIRED = ['contract_weighted_var', 'contract_rvs', 'contract_logpdf', 'contract_weighted_sample_quantile', 'populations_checked', 'weights_compared', 'cov_compared', 'threshold_user', 'threshold_quantile', 'continued_runs',
             'prior_hier', 'prior_bounded', 'prior_unbounded', 'n_sim_checked']
